@@ -221,9 +221,16 @@ def run_spec(case):
                       {"sat_logics": sat_cfg[1].get("logics"), "unsat_logics": unsat_cfg[1].get("logics"),
                        "sat_debug": bool(sat_cfg[1].get("debug")), "unsat_debug": bool(unsat_cfg[1].get("debug"))},
                       {"sat_under": sat_cfg[0], "unsat_under": unsat_cfg[0]})
-    opts = {}
+    # z3.Optimize over the array / quantified buffer encodings returns non-optimal models (known finding):
+    # the incremental configurations are compared among themselves, the built-in optimiser against them
+    buffered = bool({"arrays", "quant"} & feats)
+    opts, opts_builtin = {}, {}
     for tag, cfg, out, v in answers:
-        if v is not None:
+        if v is None:
+            continue
+        if buffered and cfg.get("optimizer") == "optimize":
+            opts_builtin.setdefault(v, []).append(tag)
+        else:
             opts.setdefault(v, []).append(tag)
     if has_obj:
         acc.count(acc.clauses, f"C15.optimum_agree:{'T' if len(opts) <= 1 else 'F'}")
@@ -231,6 +238,14 @@ def run_spec(case):
             vals = sorted(opts)
             acc.violation("C15.optimum_differs", "differs", {"objective": "+".join(o["kind"] for o in spec["objectives"])},
                           {"values": {str(v): opts[v][:3] for v in vals}})
+        if buffered and opts_builtin:
+            ref = set(opts)
+            same = set(opts_builtin) <= ref if ref else len(opts_builtin) <= 1
+            acc.count(acc.clauses, f"C15.optimum_agree.builtin_with_buffer:{'T' if same else 'F'}")
+            if not same:
+                acc.violation("C15.optimum_differs", "differs",
+                              {"objective": "+".join(o["kind"] for o in spec["objectives"]), "optimize_with_buffer": True},
+                              {"incremental": sorted(opts), "builtin": {str(v): t[:2] for v, t in opts_builtin.items()}})
     acc.sample = {"spec": spec, "answers": [(a[0], a[2], a[3]) for a in answers[:8]], "n_configs": len(answers)}
     return acc.result()
 
